@@ -34,7 +34,7 @@ META = dict(
     ),
 )
 META["explanation"] += (
-    " Added after the independent seeding rounds 2-3: " 'R2 also requires clear_excessive_bits to depend on the end of the storage. R6 also requires the builder to search the whole sibling list. R7 token_len mirrors decode_raw for special tokens (relational: a divide-by-B digit loop must run while value >= B).'
+    " Added after the independent seeding rounds 2-3: " 'R8 the element-wise token-set operations (or, and, sub, or_minus, and_is_zero, negated, first_bit_set_here_and_in) compute the set operation they are named for — decided as a truth table of the stored word expression over the operand bits, independent of syntax. R2 also requires clear_excessive_bits to depend on the end of the storage. R6 also requires the builder to search the whole sibling list. R7 token_len mirrors decode_raw for special tokens (relational: a divide-by-B digit loop must run while value >= B).'
 )
 
 GPT2_RANGES = {("ge", 0x21), ("le", 0x7E), ("ge", 0xA1), ("le", 0xAC), ("ge", 0xAE), ("le", 0xFF)}
@@ -212,6 +212,91 @@ def builder_first_match(ctx, R):
               "TrieBuilder::insert no longer walks the sibling list (first_child → next_sibling) to find an existing child: a duplicate "
               "token's subtree is attached to a child that byte-navigating readers (child_at_byte: first match) never reach",
               site=ins.where())
+
+
+WORD_OPS = {
+    # name: (number of operands, Boolean function of one bit position of (self, other[, minus]), words)
+    "or": (2, lambda s, o: s | o, "self |= other"),
+    "and": (2, lambda s, o: s & o, "self &= other"),
+    "sub": (2, lambda s, o: s & (1 - o), "self &= !other"),
+    "or_minus": (3, lambda s, o, m: s | (o & (1 - m)), "self |= other & !minus"),
+}
+
+
+def word_ops_rule(ctx, rule):
+    """R8: the element-wise token-set operations compute the set operation they are named for.  Decided as a truth table
+    of the stored / tested word expression over the operand bits (rules/wordops.py), so any way of writing the same
+    Boolean function passes; a body whose shape cannot be interpreted is not judged (and the floor below notices when
+    that happens to most of them)."""
+    from .. import wordops as W
+    P = ctx.prog
+    judged = 0
+    for name, (n, fn, words) in WORD_OPS.items():
+        b = ctx.try_body(SV + name, rule)
+        if b is None:
+            continue
+        w = W.WordFn(P, SV + name)
+        st = w.stored_tables(n)
+        spec = W.spec_table(fn, n)
+        tabs = [t for _, _, t in st if t is not None]
+        if not st or not tabs:
+            ctx.info(rule, "%s: no interpretable element-wise store (not judged)" % name)
+            continue
+        judged += 1
+        bad = [(bb, bi, t) for bb, bi, t in st if t is not None and t != spec]
+        ctx.check(not bad, rule, "word-op:" + name, "%s: every word stored into self is %s (truth table %s)" % (name, words, spec),
+                  "SimpleVob::%s stores a word that is not `%s`: truth table over (self, other%s) bits is %s, expected %s — the token-set "
+                  "operation differs from the plain-set operation" % (name, words, ", minus" if n == 3 else "", bad[0][2] if bad else "", spec),
+                  site=bad[0][0].where(bad[0][1]) if bad else b.where())
+    # predicates and derived sets
+    b = ctx.try_body(SV + "and_is_zero", rule)
+    if b is not None:
+        w = W.WordFn(P, SV + "and_is_zero")
+        verdict = None
+        for c in w.closures:
+            e = W.ret_expr(c)
+            ad = [P.bodies[SV + "and_is_zero"].blocks[bi]["term"]["f"].get("def", "").rsplit("::", 1)[-1]
+                  for bi, t in b.calls() if any(c.id in L._closures_in(b.expr(a)) for a in t["args"])]
+            if e[0] == "bin" and e[1] in ("Eq", "Ne") and e[3][0] == "const" and e[3][1] == 0 and ad:
+                t = w.table(c, e[2], 2)
+                if t is not None:
+                    want_all = e[1] == "Eq"
+                    verdict = (t == W.spec_table(lambda s, o: s & o, 2)) and ((ad[0] == "all") == want_all) and ad[0] in ("all", "any")
+                    if ad[0] == "any":
+                        verdict = None  # `!any(..)` needs the negation outside; not judged
+        if verdict is None:
+            ctx.info(rule, "and_is_zero: shape not interpretable (not judged)")
+        else:
+            judged += 1
+            ctx.check(verdict, rule, "word-op:and_is_zero", "and_is_zero is `all words: (self & other) == 0`",
+                      "SimpleVob::and_is_zero no longer tests `(self & other) == 0` for all words", site=b.where())
+    b = ctx.try_body(SV + "negated", rule)
+    if b is not None:
+        w = W.WordFn(P, SV + "negated")
+        tabs = []
+        for c in w.closures:
+            t = w.table(c, W.ret_expr(c), 1)
+            if t is not None:
+                tabs.append(t)
+        tabs += [t for _, _, t in w.stored_tables(1) if t is not None]
+        if not tabs:
+            ctx.info(rule, "negated: shape not interpretable (not judged)")
+        else:
+            judged += 1
+            ctx.check(all(t == (1, 0) for t in tabs), rule, "word-op:negated", "negated() maps every word to its complement",
+                      "SimpleVob::negated does not complement every word (table %s)" % tabs, site=b.where())
+    b = ctx.try_body(SV + "first_bit_set_here_and_in", rule)
+    if b is not None:
+        w = W.WordFn(P, SV + "first_bit_set_here_and_in")
+        tz = [(bi, w.table(b, b.expr(t["args"][0]), 2)) for bi, t in b.calls() if t["f"].get("def", "").endswith("::trailing_zeros") and t["args"]]
+        tz = [(bi, t) for bi, t in tz if t is not None]
+        if not tz:
+            ctx.info(rule, "first_bit_set_here_and_in: shape not interpretable (not judged)")
+        else:
+            judged += 1
+            ctx.check(all(t == (0, 0, 0, 1) for _, t in tz), rule, "word-op:first_bit_set_here_and_in", "the bit position is taken from `self & other`",
+                      "first_bit_set_here_and_in takes the bit position from a word that is not `self & other`", site=b.where(tz[0][0]))
+    ctx.floor(rule, "element-wise token-set operations judged by truth table", judged, 5)
 
 
 def run(ctx):
@@ -468,6 +553,7 @@ def _rest(ctx, P):
               "TrieBuilder::insert no longer asserts that the empty word is inserted once", site=ins.where())
 
     token_len_rule(ctx, "C16-R7")
+    word_ops_rule(ctx, "C16-R8")
 
     # ------------------------------------------------------------------ R5 sibling builders agree
     fr, fl = ctx.body(TT + "::from"), ctx.body(TT + "::filter")
